@@ -47,16 +47,32 @@ def atoi (s : Str) : Option Int :=
     | some v => if v ≤ int64Max then some (v : Int) else none
     | none => none
 
+/-- value of the leading run of decimal digits -/
+def leadVal : Str → Nat → Nat
+  | [], acc => acc
+  | c :: cs, acc =>
+    match digitVal c with
+    | some d => leadVal cs (acc * 10 + d)
+    | none => acc
+
+def uint64Max : Nat := 18446744073709551615
+
+/-- what `strconv.Atoi` hands back with a *syntax* error: `ParseUint` walks the digits from the left and
+    gives up with a range error as soon as the value passes 2^64-1 — before it would have met the
+    character that is not a digit — and `ParseInt` then clamps; otherwise 0 -/
+def atoiGarbage (neg : Bool) (r : Str) : Int :=
+  if uint64Max < leadVal r 0 then (if neg then -((int64Max : Int) + 1) else (int64Max : Int)) else 0
+
 /-- `v, _ := strconv.Atoi(s)`: the value the caller sees when it drops the error — 0 on a syntax
-    error, the clamped value when out of range -/
+    error (but see `atoiGarbage`), the clamped value when out of range -/
 def atoiLoose (s : Str) : Int :=
   let clamp (neg : Bool) (v : Nat) : Int :=
     if neg then (if v ≤ int64Max + 1 then -(v : Int) else -((int64Max : Int) + 1))
     else (if v ≤ int64Max then (v : Int) else (int64Max : Int))
   match s with
-  | '-' :: r => match parseDigits r with | some v => clamp true v | none => 0
-  | '+' :: r => match parseDigits r with | some v => clamp false v | none => 0
-  | _ => match parseDigits s with | some v => clamp false v | none => 0
+  | '-' :: r => match parseDigits r with | some v => clamp true v | none => atoiGarbage true r
+  | '+' :: r => match parseDigits r with | some v => clamp false v | none => atoiGarbage false r
+  | _ => match parseDigits s with | some v => clamp false v | none => atoiGarbage false s
 
 /-- left-pad a digit string with `'0'` to width `w` (`astikit.StrPad(s, '0', w, PadLeft)`: a
     longer string is returned as it is) -/
